@@ -180,6 +180,13 @@ def deviations(honest, tls13=False):
         if tls13 and dict(honest)[i] in ("CH", "SH", "FIN", "HRR"):
             for frag in FRAGMENTS:
                 out.append({i: ("straddle", frag)})
+    # TLS <= 1.2: the message after ChangeCipherSpec begins before it (its
+    # first bytes travel under the old keys, the rest under the new ones)
+    if not tls13:
+        for i in idxs:
+            if dict(honest)[i] == "CCS":
+                for k in (1, 4, 6, 11):
+                    out.append({i: ("split-ccs", k)})
     # two adjacent messages left out together (an authentication pair such
     # as Certificate + CertificateVerify is only skippable as a whole)
     for a, b in zip(idxs, idxs[1:]):
